@@ -164,6 +164,11 @@ func checkC05(c *Ctx) {
 	m.checkDoSync()  // third sentence: a subscriber never reads an older version than it was told about
 	m.checkDoUpdate()
 	checkControllerTable(c)
+	checkWatcherTable(c) // a reconnect resumes after the last event taken: already-published history is not published again
+	for _, r := range typedRelsQuick(c) {
+		checkTypedRobustness(c, r) // the typed layer forwards every event it can wrap, once, in order, and survives foreign objects
+	}
+	checkMonitorTable(c) // a monitor's handler is a subscriber too: callbacks in event order, on one goroutine
 	c.floor("T-TABLE(_subscription.run)", 4, "2 arms, defer close, send")
 	c.floor("T-TABLE(publisher.run)", 4, "event ok / closed (drained or not) / subscribe / unsubscribe")
 	c.floor("T-CHAN(single-sender)", 4, "4 event-path channels")
